@@ -1,9 +1,10 @@
 import JL.Lemmas.Monad
+import JL.Lemmas.C16
 /-!
 # C16 — `cat` concatenates JS string forms; `substr` slices by Unicode character
 -/
 namespace JL.Props.C16
-open JL Json StrOp
+open JL Json StrOp JL.Spec
 
 /-- the string form `cat` uses for one operand: strings unchanged, everything else `js_op::to_string` -/
 def strForm : Json → Str
@@ -56,7 +57,178 @@ theorem substr_nonneg_start (s : Str) (i : Nat) (hi : i < 2 ^ 63) :
   simp only [this, if_true]
   omega
 
-example : substr (.str "éa".toList) (.num (.neg 1)) none = some (.str "a".toList) := by rfl
-example : substr (.str "abc".toList) (.num (.neg (2^63))) none = some (.str "abc".toList) := by rfl
+/-! ## the string-form table of the property -/
+
+/-- the string form is `js_op::to_string` on every value (which leaves strings unchanged) -/
+theorem strForm_eq_toString (v : Json) : strForm v = JsOp.toString v := by
+  cases v <;> rfl
+
+/-- what an array element contributes to the comma-joined form of its array: `null` nothing, anything else its string form -/
+def elemForm : Json → Str
+  | .null => []
+  | v => strForm v
+
+theorem strForm_str (s : Str) : strForm (.str s) = s := rfl
+theorem strForm_null : strForm .null = "null".toList := by rfl
+theorem strForm_true : strForm (.bool true) = "true".toList := by rfl
+theorem strForm_false : strForm (.bool false) = "false".toList := by rfl
+/-- numbers: their JSON text (`Display for Number`) -/
+theorem strForm_num (n : Num) : strForm (.num n) = n.toStr := by rfl
+theorem strForm_obj (kvs : List (Str × Json)) : strForm (.obj kvs) = "[object Object]".toList := by rfl
+
+theorem toStringElems_eq_map : ∀ xs : List Json, JsOp.toStringElems xs = xs.map elemForm
+  | [] => by rfl
+  | x :: rest => by
+      have ih := toStringElems_eq_map rest
+      cases x
+      all_goals
+        rw [List.map_cons, ← ih]
+        first | rfl | (rw [elemForm, strForm_eq_toString]; rfl)
+
+/-- arrays: the element forms joined with commas; `null` ELEMENTS are empty (`[null,1]` ↦ `",1"`), nested arrays recursively -/
+theorem strForm_arr (xs : List Json) : strForm (.arr xs) = joinWith [','] (xs.map elemForm) := by
+  rw [← toStringElems_eq_map]; rfl
+
+theorem elemForm_null : elemForm .null = [] := rfl
+theorem elemForm_nonnull (v : Json) (h : v ≠ .null) : elemForm v = strForm v := by
+  cases v <;> first | rfl | exact absurd rfl h
+
+example : cat [.null, .arr [.null, .num (.pos 1), .arr [.str "a".toList, .null]], .obj [], .bool true, .num (.neg 3), .str "é".toList]
+    = "null,1,a,[object Object]true-3é".toList := by decide +kernel
+example : cat [.num (.flt (.fin false (F64.S + F64.S / 2)))] = "1.5".toList := by decide +kernel
+
+/-! ## `substr`, in characters, against `Spec.substrSpec` -/
+
+/-- `substr(s, i)` for EVERY integer `i` an `i64` can hold (indeed every integer): the characters after the start
+`Spec.substrStart` — `i ≥ 0` ↦ drop `min i len`, `i < 0` ↦ drop `len − min |i| len`. No hypothesis on the string. -/
+theorem substr_spec_start (s : Str) (ni : Num) (i : Int) (hi : ni.asI64 = some i) :
+    substr (.str s) (.num ni) none = some (.str (substrSpec s i none)) := by
+  simp only [substr, intArg, hi]
+  rw [← JL.Lemmas.C16.slice_none]
+
+/-- `substr(s, i, l)` for every pair of 64-bit integers: start as above; `l ≥ 0` ↦ take `l` characters,
+`l < 0` ↦ stop `|l|` characters before the end (empty if that is before the start); everything clamped to the string.
+The only hypothesis: the string is shorter than `2^63` characters (so that `start + l` cannot overflow a `usize`). -/
+theorem substr_spec_len (s : Str) (ni nl : Num) (i l : Int) (hs : s.length < 2 ^ 63)
+    (hi : ni.asI64 = some i) (hl : nl.asI64 = some l) :
+    substr (.str s) (.num ni) (some (.num nl)) = some (.str (substrSpec s i (some l))) := by
+  have hl' : l < 2 ^ 63 := by
+    cases nl with
+    | pos n => simp only [Num.asI64] at hl; split at hl <;> simp at hl; omega
+    | neg m => simp only [Num.asI64, Option.some.injEq] at hl; omega
+    | flt f => simp [Num.asI64] at hl
+  simp only [substr, intArg, hi, hl]
+  rw [← JL.Lemmas.C16.slice_some s i l hs hl']
+
+/-- both forms at once; `lim = none` is the two-operand form -/
+theorem substr_spec (s : Str) (ni : Num) (i : Int) (lim : Option (Num × Int)) (hs : s.length < 2 ^ 63)
+    (hi : ni.asI64 = some i) (hl : ∀ p, lim = some p → p.1.asI64 = some p.2) :
+    substr (.str s) (.num ni) (lim.map (fun p => .num p.1)) = some (.str (substrSpec s i (lim.map (·.2)))) := by
+  cases lim with
+  | none => exact substr_spec_start s ni i hi
+  | some p => exact substr_spec_len s ni p.1 i p.2 hs hi (hl p rfl)
+
+/-- every `i64` is the `as_i64` of a well-formed number, so the two theorems above cover all 64-bit integer operands -/
+theorem asI64_ofI64 (i : Int) (h1 : -(2 ^ 63) ≤ i) (h2 : i < 2 ^ 63) : (Num.ofI64 i).asI64 = some i ∧ (Num.ofI64 i).WF := by
+  unfold Num.ofI64
+  split
+  · simp only [Num.asI64, Num.WF]; refine ⟨?_, ?_, ?_⟩
+    · congr 1; omega
+    · omega
+    · omega
+  · simp only [Num.asI64, Num.WF]
+    have : i.toNat < 2 ^ 63 := by omega
+    simp only [this, if_true]; refine ⟨?_, ?_⟩
+    · congr 1; omega
+    · omega
+
+/-- the specification, unfolded: start only -/
+theorem substrSpec_none (s : Str) (i : Int) :
+    substrSpec s i none = s.drop (if 0 ≤ i then min i.toNat s.length else s.length - min i.natAbs s.length) := rfl
+
+/-- the result never has more characters than asked for, and is a contiguous run of `s` -/
+theorem substrSpec_length_le (s : Str) (i l : Int) (h : 0 ≤ l) : (substrSpec s i (some l)).length ≤ l.toNat := by
+  simp only [substrSpec, h, if_true, List.length_take]; omega
+
+/-- split / recombine: for every string (any characters) and every `i ≥ 0` an `i64` can hold,
+`substr(s,0,i)` followed by `substr(s,i)` is `s` -/
+theorem split_recombine (s : Str) (i : Nat) (hs : s.length < 2 ^ 63) (hi : i < 2 ^ 63) :
+    ∃ a b, substr (.str s) (.num (.pos 0)) (some (.num (.pos i))) = some (.str a) ∧
+           substr (.str s) (.num (.pos i)) none = some (.str b) ∧ a ++ b = s := by
+  have h0 : (Num.pos 0).asI64 = some 0 := by simp [Num.asI64]
+  have h1 : (Num.pos i).asI64 = some (i : Int) := by simp [Num.asI64, hi]
+  refine ⟨_, _, substr_spec_len s _ _ 0 i hs h0 h1, substr_spec_start s _ i h1, ?_⟩
+  have hnn : (0 : Int) ≤ (i : Int) := by omega
+  simp only [substrSpec, substrStart, hnn, if_true, Int.le_refl, Int.toNat_natCast, Int.toNat_zero,
+    Nat.zero_min, List.drop_zero]
+  rw [List.take_eq_take_iff.mpr (show min i s.length = min (min i s.length) s.length by omega)]
+  exact List.take_append_drop _ _
+
+/-- the same law through `cat` -/
+theorem split_recombine_cat (s : Str) (i : Nat) (hs : s.length < 2 ^ 63) (hi : i < 2 ^ 63) (a b : Json)
+    (ha : substr (.str s) (.num (.pos 0)) (some (.num (.pos i))) = some a)
+    (hb : substr (.str s) (.num (.pos i)) none = some b) : cat [a, b] = s := by
+  obtain ⟨a', b', h1, h2, h3⟩ := split_recombine s i hs hi
+  rw [h1] at ha; rw [h2] at hb
+  cases ha; cases hb
+  simpa [cat] using h3
+
+/-! ## type errors: an `Err`, never a panic -/
+
+/-- first operand not a string -/
+theorem substr_nonstring (v i : Json) (l : Option Json) (h : ∀ s, v ≠ .str s) : substr v i l = none := by
+  cases v <;> first | rfl | exact absurd rfl (h _)
+
+/-- a number that is not an `i64`: a float (even `2.0`), or a positive integer `≥ 2^63` -/
+theorem asI64_flt (f : F64) : (Num.flt f).asI64 = none := rfl
+theorem asI64_big (n : Nat) (h : 2 ^ 63 ≤ n) : (Num.pos n).asI64 = none := by
+  simp only [Num.asI64]; split
+  · omega
+  · rfl
+
+/-- second operand not an integer (not a number, or `as_i64` fails) -/
+theorem substr_bad_index (v i : Json) (l : Option Json) (h : intArg i = none) : substr v i l = none := by
+  cases v <;> simp only [substr, h]
+
+theorem intArg_nonnum (v : Json) (h : ∀ n, v ≠ .num n) : intArg v = none := by
+  cases v <;> first | rfl | exact absurd rfl (h _)
+theorem intArg_num (n : Num) : intArg (.num n) = n.asI64 := rfl
+
+/-- third operand present and not an integer -/
+theorem substr_bad_length (v i l : Json) (h : intArg l = none) : substr v i (some l) = none := by
+  cases v <;> simp only [substr, h]
+  split <;> rfl
+
+/-- `substr` succeeds exactly on (string, integer[, integer]) -/
+theorem substr_isSome_iff (v i : Json) (l : Option Json) :
+    (substr v i l).isSome = true ↔ (∃ s, v = .str s) ∧ (intArg i).isSome = true ∧ (∀ lv, l = some lv → (intArg lv).isSome = true) := by
+  cases v <;> simp only [substr, Option.isSome_none, false_and, reduceCtorEq, exists_false, Bool.false_eq_true]
+  rename_i s
+  cases hi : intArg i <;> cases l <;> simp
+  rename_i lv
+  cases hl : intArg lv <;> simp
+
+/-- at the operator: two or three operands give the value or an ordinary error — the panic outcome is for an operand count
+the arity table rejects beforehand (C01) -/
+theorem op_substr2 (s i : Json) : execEager "substr".toList [s, i] = M.ofOption (substr s i none) := by simp [execEager]
+theorem op_substr3 (s i l : Json) (rest : List Json) :
+    execEager "substr".toList (s :: i :: l :: rest) = M.ofOption (substr s i (some l)) := by simp [execEager]
+theorem op_substr_noPanic (s i : Json) (tl : List Json) : M.NoPanic (execEager "substr".toList (s :: i :: tl)) := by
+  cases tl with
+  | nil => rw [op_substr2]; cases substr s i none <;> simp [M.NoPanic]
+  | cons l rest => rw [op_substr3]; cases substr s i (some l) <;> simp [M.NoPanic]
+
+/-! ## non-vacuity -/
+example : substr (.str "éa".toList) (.num (.neg 1)) none = some (.str "a".toList) := by decide +kernel
+example : substr (.str "abc".toList) (.num (.neg (2^63))) none = some (.str "abc".toList) := by decide +kernel
+example : (Num.neg (2^63)).asI64 = some (-(2^63)) ∧ (Num.neg (2^63)).WF := by decide +kernel
+example : substrSpec "abc".toList (-(2^63)) (some (-(2^63))) = [] := by decide +kernel
+example : substr (.str "a€𝄞bé".toList) (.num (.pos 1)) (some (.num (.neg 1))) = some (.str "€𝄞b".toList) := by decide +kernel
+example : substr (.str "abc".toList) (.num (.pos (2^63 - 1))) (some (.num (.pos (2^63 - 1)))) = some (.str []) := by decide +kernel
+example : substr (.str "abc".toList) (.num (.flt (.fin false (2 * F64.S)))) none = none := by decide +kernel
+example : substr (.str "abc".toList) (.num (.pos (2^63))) none = none := by decide +kernel
+example : substr (.num (.pos 1)) (.num (.pos 1)) none = none := by decide +kernel
+example : substr (.str "abc".toList) (.num (.pos 1)) (some (.str "1".toList)) = none := by decide +kernel
+example : "a€𝄞bé".toList.length < 2 ^ 63 := by decide +kernel
 
 end JL.Props.C16
